@@ -1056,6 +1056,133 @@ fn run_degenerate(out: &mut Out, w: usize, h: usize) {
 }
 
 // ---------------------------------------------------------------------------------------------
+// sinks: short writes, `Interrupted`, `Ok(0)`, errors — on the first draw and on the cache hit
+// ---------------------------------------------------------------------------------------------
+
+#[derive(Clone, Copy, Debug)]
+enum Resp {
+    Accept(usize),
+    Interrupted,
+    Fail,
+}
+
+/// an `io::Write` whose successive `write` calls answer a script (and take everything afterwards)
+struct ScriptSink {
+    script: Vec<Resp>,
+    pos: usize,
+    data: Vec<u8>,
+}
+
+impl std::io::Write for ScriptSink {
+    fn write(&mut self, buf: &[u8]) -> std::io::Result<usize> {
+        let r = self.script.get(self.pos).copied();
+        self.pos += 1;
+        match r {
+            None => {
+                self.data.extend_from_slice(buf);
+                Ok(buf.len())
+            }
+            Some(Resp::Accept(n)) => {
+                let n = n.min(buf.len());
+                self.data.extend_from_slice(&buf[..n]);
+                Ok(n)
+            }
+            Some(Resp::Interrupted) => Err(std::io::Error::new(std::io::ErrorKind::Interrupted, "interrupted")),
+            Some(Resp::Fail) => Err(std::io::Error::new(std::io::ErrorKind::Other, "sink failed")),
+        }
+    }
+    fn flush(&mut self) -> std::io::Result<()> {
+        Ok(())
+    }
+}
+
+fn parse_pattern(p: &str) -> Vec<Resp> {
+    p.split('.')
+        .map(|t| match t {
+            "i" => Resp::Interrupted,
+            "f" => Resp::Fail,
+            _ => Resp::Accept(t[1..].parse().unwrap_or(1)),
+        })
+        .collect()
+}
+
+/// One image, one sink pattern, both branches of `draw`.
+/// ORACLE: a draw that returns `Ok` has delivered a complete well-formed sequence with the image's picture
+/// — on a cache hit exactly the bytes of the first draw; a draw that returns `Err` has delivered a prefix
+/// (on a hit: of the first draw's bytes); afterwards a draw into a plain `Vec` works as always.
+/// CORRESPONDENCE: `Ok`/`Err`, number of bytes that arrived and whether the image is cached afterwards,
+/// against the model's `drawTo` (`write_all` in both branches).
+fn run_sink_case(out: &mut Out, image_seed: u64, w: usize, h: usize, ncol: usize, pattern: &str) {
+    use surf_n_term::image::verif_c12::cache_state;
+    let mut rng = Rng::new(image_seed);
+    let pal = pick_palette(&mut rng, ncol, false);
+    let data: Vec<RGBA> = (0..w * h).map(|_| { let c = *rng.pick(&pal); RGBA::new(c[0], c[1], c[2], 255) }).collect();
+    let img = Image::from_parts(data.into(), Shape::from(Size::new(h, w)));
+    let key = Surface::hash(&img);
+    let input = json!({"sink_image_seed": image_seed, "w": w, "h": h, "colours": ncol, "pattern": pattern,
+        "history": "image = w x h noise of `colours` colours from Rng(sink_image_seed); sink answers its write calls by `pattern` (aN accept N bytes, i Interrupted, f error) repeated, then takes everything"});
+    let reference = match draw(&mut SixelImageHandler::new(None), &img).and_then(|b| decode(&b).map(|d| (b, d.pix))) {
+        Ok(r) => r,
+        Err(e) => {
+            out.fail("draw failed", input, json!("Ok"), json!(e));
+            return;
+        }
+    };
+    let len = reference.0.len();
+    let pat = parse_pattern(pattern);
+    let script: Vec<Resp> = (0..len).flat_map(|_| pat.iter().copied()).collect();
+    for branch in ["miss", "hit"] {
+        let mut handler = SixelImageHandler::new(None);
+        let first = if branch == "hit" { draw(&mut handler, &img).ok() } else { None };
+        let mut sink = ScriptSink { script: script.clone(), pos: 0, data: Vec::new() };
+        let res = guarded(|| handler.draw(&mut sink, &img, Position::new(0, 0)));
+        let ok = match res {
+            Err(()) => {
+                out.fail("draw panicked", input.clone(), json!("Ok or Err"), json!("panic"));
+                return;
+            }
+            Ok(r) => r.is_ok(),
+        };
+        let arrived = sink.data;
+        let cached = cache_state(&handler).1.iter().any(|e| e.0 == key);
+        out.corr(
+            &format!("c12 handover {branch} {pattern} {len} {len}"),
+            &format!("{} {} {}", if ok { "ok" } else { "err" }, arrived.len(), if cached { "cached" } else { "not-cached" }),
+        );
+        let what = if ok {
+            match &first {
+                Some(f) if *f != arrived => Some("repeated draw into a sink that takes the bytes in pieces delivers other bytes than the first draw"),
+                _ => match decode(&arrived) {
+                    Ok(d) if d.pix == reference.1 => None,
+                    Ok(_) => Some("draw into a sink that takes the bytes in pieces delivers another picture"),
+                    Err(_) => Some("draw into a sink that takes the bytes in pieces returns Ok but what arrived is not a well-formed sixel sequence"),
+                },
+            }
+        } else {
+            match &first {
+                Some(f) if !f.starts_with(&arrived) => Some("failed repeated draw delivered bytes that are not a prefix of the first draw"),
+                _ if arrived.len() > len => Some("failed draw delivered more bytes than the encoding has"),
+                _ => None,
+            }
+        };
+        if let Some(what) = what {
+            out.fail(what, input.clone(), json!({"branch": branch, "bytes": len}), json!({"returned": if ok { "Ok" } else { "Err" }, "arrived": arrived.len(), "head": hex(&arrived[..arrived.len().min(200)])}));
+            return;
+        }
+        // afterwards the handler works as always
+        match draw(&mut handler, &img).and_then(|b| decode(&b).map(|d| (b, d.pix))) {
+            Ok((b, pix)) if pix == reference.1 && first.as_ref().map(|f| *f == b).unwrap_or(true) => {}
+            _ => {
+                out.fail("draw after a draw into a scripted sink gives another picture or other bytes", input.clone(), json!("the picture (and, after a hit, the bytes) of the first draw"), json!(branch));
+                return;
+            }
+        }
+        out.hist(&format!("sink:{branch}:{}", if ok { "ok" } else { "err" }));
+    }
+    out.case(&format!("sink {image_seed} {w} {h} {pattern}"), true);
+}
+
+// ---------------------------------------------------------------------------------------------
 // the eviction loop: handlers with a small cache budget (hook `verif_c12::with_cache_size`)
 // ---------------------------------------------------------------------------------------------
 
@@ -1184,6 +1311,11 @@ fn main() {
             out.finish(rule);
             return;
         }
+        if let (Some(seed), Some(pattern)) = (inp["sink_image_seed"].as_u64(), inp["pattern"].as_str()) {
+            run_sink_case(&mut out, seed, inp["w"].as_u64().unwrap_or(1) as usize, inp["h"].as_u64().unwrap_or(6) as usize, inp["colours"].as_u64().unwrap_or(2) as usize, pattern);
+            out.finish(rule);
+            return;
+        }
         if inp["degenerate"].as_bool() == Some(true) {
             run_degenerate(&mut out, inp["w"].as_u64().unwrap_or(0) as usize, inp["h"].as_u64().unwrap_or(0) as usize);
             out.finish(rule);
@@ -1295,6 +1427,26 @@ fn main() {
     // images answered with nothing
     for (w, h) in [(0usize, 6usize), (0, 12), (0, 0), (5, 0), (5, 1), (5, 5), (1, 3), (300, 5)] {
         run_degenerate(&mut out, w, h);
+    }
+    // sinks that take the bytes in pieces, are interrupted, or fail: first draw and cache hit
+    {
+        let small = ["a1", "a2", "a3", "a7", "a1.i.a5", "i.i.a3", "a5.a1.a4096", "a10.f", "a0", "a7.a7.f", "f", "i.a1.i.a2.i.a3"];
+        let large = ["a64", "a1000", "a4096", "a333.i", "a4096.a1", "a2000.f", "a100.a0"];
+        let rounds = if cfg.thorough { 12 } else { 1 };
+        for _ in 0..rounds {
+            for p in small {
+                run_sink_case(&mut out, rng.next(), 1 + rng.below(12) as usize, 6 + rng.below(8) as usize, 1 + rng.below(5) as usize, p);
+            }
+            for p in large {
+                run_sink_case(&mut out, rng.next(), 48, 128, 64, p);
+            }
+            if cfg.thorough {
+                for _ in 0..6 {
+                    let p = format!("a{}", 1 + rng.below(4096));
+                    run_sink_case(&mut out, rng.next(), 8 + rng.below(40) as usize, 6 + rng.below(60) as usize, 2 + rng.below(30) as usize, &p);
+                }
+            }
+        }
     }
     // the eviction loop, with budgets of 64 KiB and less
     for (k, budget) in [65536usize, 30000, 100_000, 4096, 1, 0].iter().enumerate() {
